@@ -123,8 +123,35 @@ func loadProg(repo, goos, goarch string, tests bool) (*Prog, error) {
 			}
 		}
 	}
-	sp, _ := ssautil.AllPackages(pkgs, ssa.InstantiateGenerics)
-	sp.Build()
+	buildMode := ssa.InstantiateGenerics
+	if p.Inline != nil && p.Inline.Rounds > 0 {
+		buildMode |= ssa.BuildSerially // a panic of the builder on normalised code must be recoverable here
+	}
+	sp, _ := ssautil.AllPackages(pkgs, buildMode)
+	if buildErr := func() (err error) {
+		defer func() {
+			if r := recover(); r != nil {
+				err = fmt.Errorf("go/ssa could not build the normalised package: %v", r)
+			}
+		}()
+		sp.Build()
+		return nil
+	}(); buildErr != nil {
+		if noInline || p.Inline == nil {
+			return nil, buildErr
+		}
+		// the normalisation produced something the SSA builder rejects: analyse the code as written
+		st := p.Inline
+		noInline = true
+		q, err := loadProg(repo, goos, goarch, tests)
+		noInline = false
+		if err != nil {
+			return nil, err
+		}
+		st.Disabled = buildErr.Error()
+		q.Inline = st
+		return q, nil
+	}
 	p.SSA = sp
 	p.Pkg = sp.Package(p.Main.Types)
 	if p.Pkg == nil {
